@@ -40,7 +40,10 @@ def raise_stack_limit():
     import resource
     try:
         soft, hard = resource.getrlimit(resource.RLIMIT_STACK)
-        resource.setrlimit(resource.RLIMIT_STACK, (hard, hard))
+        want = 2 * 1024 ** 3           # an *unlimited* stack switches the kernel to the legacy mmap layout
+        if hard != resource.RLIM_INFINITY:
+            want = min(want, hard)
+        resource.setrlimit(resource.RLIMIT_STACK, (want, hard))
     except (ValueError, OSError):
         pass
 
@@ -259,11 +262,22 @@ def case_dir(tag):
     return d
 
 
-def cs(s):
+def _cs_plain(s):
     b = s.encode("utf-8", "surrogatepass")
     if all(32 <= c < 127 for c in b):
         return '"' + s.replace('"', '""') + '"'
     return '(unhex "' + b.hex() + '")'
+
+
+def cs(s):
+    """Gallina string term; long periodic strings (boundary-length cases) are written compactly."""
+    if len(s) > 120:
+        for p in (1, 2, 3, 4, 5, 6, 8):
+            unit = s[:p]
+            k = len(s) // p + 1
+            if (unit * k)[:len(s)] == s:
+                return "(cp_take %d (srepeat %s %d))" % (len(s), _cs_plain(unit), k)
+    return _cs_plain(s)
 
 
 def cz(z):
@@ -333,6 +347,10 @@ def cjson(v):
     if isinstance(v, str):
         return "(JStr %s)" % cs(v)
     if isinstance(v, (list, tuple)):
+        if len(v) > 12:
+            first = cjson(v[0])
+            if all(cjson(x) == first for x in v[1:4]) and all(x == v[0] and type(x) is type(v[0]) for x in v):
+                return "(JArr (repeat %s %d))" % (first, len(v))
         return "(JArr %s)" % clist([cjson(x) for x in v])
     if isinstance(v, dict):
         return "(JObj %s)" % clist(["(%s, %s)" % (cs(k), cjson(x)) for k, x in v.items()])
@@ -487,8 +505,11 @@ class Report:
             json.dump(ev, fh, indent=1, default=repr)
         for key, what in self.known_hits:
             print("KNOWN-FINDING: property=%s %s" % (self.prop_id, what))
-        for key, path, found in self.violations:
+        shown = self.violations[:15]
+        for key, path, found in shown:
             print("VIOLATION property=%s replay=%s%s" % (self.prop_id, path, "" if found else " no-failing-input-found"))
+        if len(self.violations) > len(shown):
+            print("(%d further violations of %s: see %s)" % (len(self.violations) - len(shown), self.prop_id, REPLAYS))
         sys.stdout.flush()
         return 1 if self.violations else 0
 
